@@ -22,7 +22,8 @@ META = {
             "message reader's chunking are schedule parameters of the model, not derived from the Go runtime; the close "
             "model's rules are a reading of the code justified rule by rule and observed end to end, not extracted; "
             "payload bytes are not copied into Coq (sizes, splits, kinds are) - byte equality on real data is the "
-            "harness oracle; zero-length Writes and failures in the middle of a Write are not modelled. Trusted: Coq "
+            "harness oracle; which call of a failing Write fails and when is a parameter (the real failure point "
+            "depends on TCP). Trusted: Coq "
             "kernel + vm_compute, translator gen/sni_stream.go, harness c01 + sniproxy/verif_stream.go; gorilla/websocket, "
             "net.Pipe, io.Copy are modelled, not verified; no axioms.",
     "technique": "Coq proof (loop invariants, stage composition, reflection over a finite transition system) + go/ast "
@@ -112,6 +113,11 @@ def to_coq(c):
         return reply_term(c["reply"])
     if s == "pipe":
         return pipe_term(c["pipe"])
+    if s == "wfail":
+        w = c.get("wfail")
+        if not w or w.get("err", "").startswith("setup:"):
+            return None
+        return "KWriteFail %s %s %s" % (nlist(w["sizes"]), nlist(w["ns"]), cbool(w["failed"]))
     if s == "e2e":
         e = c["e2e"]
         if e.get("skipped"):
@@ -157,6 +163,20 @@ def impl_oracle(c):
         if closed and "block" in (r.get("later") or []):
             return ("side-later-read-hung", "the websocket was closed, yet a Read after the first end blocked: %s"
                     % r.get("later"))
+    elif s == "wfail":
+        w = c.get("wfail")
+        if not w:
+            return None
+        if w.get("hung"):
+            return ("side-write-hung", "sideConn.Write did not return within the bound after the peer was gone")
+        if not w["prefix_ok"]:
+            return ("side-write-fail-bytes", "what the peer received before it went away is not a prefix of the bytes written")
+        for i, n in enumerate(w["ns"]):
+            last = i == len(w["ns"]) - 1
+            if n < 0 or n > w["sizes"][i]:
+                return ("side-write-fail-count", "Write of %d bytes returned n=%d" % (w["sizes"][i], n))
+            if n < w["sizes"][i] and not (last and w["failed"]):
+                return ("side-write-silent-short", "Write of %d bytes returned n=%d without an error" % (w["sizes"][i], n))
     elif s == "reply":
         p = c["reply"]
         if p["len"] <= p["cap"] and not (p["n"] == p["len"] and p["view_ok"]):
@@ -194,7 +214,7 @@ def impl_oracle(c):
 
 
 def run(ck):
-    ncases = 500 if not ck.thorough else 6000
+    ncases = 420 if not ck.thorough else 6000
     e2e_n = 60 if not ck.thorough else 1500
     ck.gen()
     built = ck.coq_make(MODEL + PROOFS, clean=ck.thorough)
@@ -208,7 +228,8 @@ def run(ck):
     binp = ck.build_harness("c01")
     cases = []
     if binp:
-        rc, out, err = vlib.sh2([binp, "-seed", str(ck.seed), "-n", str(ncases), "-e2e", str(e2e_n), "-big"], timeout=2400)
+        cmd = [binp, "-seed", str(ck.seed), "-n", str(ncases), "-e2e", str(e2e_n), "-big"] + (["-huge"] if ck.thorough else [])
+        rc, out, err = vlib.sh2(cmd, timeout=2400)
         if rc != 0:
             ck.broken.append({"what": "harness run failed", "detail": err[-1500:]})
         for line in out.splitlines():
